@@ -312,3 +312,53 @@ package keeper
 //@ modifies Params, SetT
 //@ ensures [C18] only-the-authority-with-valid-params: result1 == nil ==> k.authority == req.Authority && Params.present && Params.AuctionCreationFee == req.Params.AuctionCreationFee && Params.PlaceBidFee == req.Params.PlaceBidFee && Params.ExtendedPeriod == req.Params.ExtendedPeriod
 //@ ensures [C18] rejected-leaves-params: result1 != nil ==> Params == old(Params)
+
+// Store listings by auction (C19: prefix ranges per auction).
+//@ func (Keeper).GetBidsByAuctionId
+//@ requires 0 <= BidSeq[auctionId] && dense1(domOf(Bid, auctionId), BidSeq[auctionId])
+//@ ensures [C19,C03,C07] exactly-the-bids-of-the-auction-in-id-order: result1 == nil && len(result0) == BidSeq[auctionId] && forall(j, int, 0 <= j && j < len(result0) ==> result0[j] == Bid[auctionId][j+1])
+//@ walk 0 invariant len(bids) == idx && forall(j, int, 0 <= j && j < idx ==> bids[j] == walkVal(j))
+
+//@ func (Keeper).GetAllowedBiddersByAuction
+//@ ensures [C19,C05,C03] exactly-the-allow-list-of-the-auction: result1 == nil && len(result0) == listN(domOf(AllowedBidder, auctionId)) && forall(j, int, 0 <= j && j < len(result0) ==> result0[j] == AllowedBidder[auctionId][listKey(domOf(AllowedBidder, auctionId), j)])
+//@ walk 0 invariant len(allowedBidders) == idx && forall(j, int, 0 <= j && j < idx ==> allowedBidders[j] == walkVal(j))
+
+//@ func (Keeper).GetVestingQueuesByAuctionId
+//@ ensures [C19,C09] exactly-the-instalments-of-the-auction-in-release-order: result1 == nil && len(result0) == ilistN(domOf(VestingQueue, auctionId)) && forall(j, int, 0 <= j && j < len(result0) ==> result0[j] == VestingQueue[auctionId][ilistKey(domOf(VestingQueue, auctionId), j)])
+//@ walk 0 invariant len(vestingQueues) == idx && forall(j, int, 0 <= j && j < idx ==> vestingQueues[j] == walkVal(j))
+
+//@ func (Keeper).GetLastMatchedBidsLen
+//@ ensures [C13] absent-means-zero: result1 == nil && result0 == MatchedBidsLen[auctionId]
+
+//@ func (Keeper).SetMatchedBidsLen
+//@ modifies MatchedBidsLen, SetT
+//@ ensures [C13] stores-the-length: result == nil && MatchedBidsLen[auctionId].present && MatchedBidsLen[auctionId] == matchedLen
+//@ ensures [C13,C19] other-auctions-untouched: forall(x, uint64, x != auctionId ==> MatchedBidsLen[x] == old(MatchedBidsLen[x]))
+
+// ApplyVestingSchedules (C09, C01, C02, C08): the whole paying escrow becomes the proceeds R; without a schedule R goes to
+// the auctioneer and the auction is finished; otherwise R moves to the vesting escrow and is split into one unreleased
+// instalment per schedule entry: floor(R*w) for all but the last, which takes the remainder, so that they sum to R.
+//@ func (Keeper).ApplyVestingSchedules
+//@ requires auctionFieldsWF(auction, auction.Id) && auction.Id < 18446744073709551616
+//@ requires forall(t, Time, !VestingQueue[auction.Id][t].present)
+//@ modifies Auction, VestingQueue, Bal, SetT, XferN, XferT, *auction
+//@ ensures [C09,C02,C08] no-schedule-pays-everything-at-once: result == nil && len(auction.VestingSchedules) == 0 ==> let(pd, auction.PayingCoinDenom, let(R, old(bal(payEsc(auction.Id), pd)), bal(payEsc(auction.Id), pd) == 0 && bal(addrOf(auction.Auctioneer), pd) == old(bal(addrOf(auction.Auctioneer), pd)) + R && auction.Status == AuctionStatusFinished && VestingQueue == old(VestingQueue)))
+//@ ensures [C09,C01,C02] proceeds-move-to-the-vesting-escrow: result == nil && len(auction.VestingSchedules) > 0 ==> let(pd, auction.PayingCoinDenom, let(R, old(bal(payEsc(auction.Id), pd)), bal(payEsc(auction.Id), pd) == 0 && bal(vestEsc(auction.Id), pd) == old(bal(vestEsc(auction.Id), pd)) + R && auction.Status == AuctionStatusVesting))
+//@ ensures [C09] floor-shares-and-remainder-to-the-last: result == nil ==> let(R, old(bal(payEsc(auction.Id), auction.PayingCoinDenom)), forall(j, int, 0 <= j && j < len(auction.VestingSchedules) ==> let(q, VestingQueue[auction.Id][auction.VestingSchedules[j].ReleaseTime], q.present && q.PayingCoin.Amount == instalment(auction.VestingSchedules, R, j) && q.PayingCoin.Amount >= 0 && q.PayingCoin.Denom == auction.PayingCoinDenom && !q.Released && q.ReleaseTime == auction.VestingSchedules[j].ReleaseTime && q.AuctionId == auction.Id && q.Auctioneer == auction.Auctioneer)))
+//@ ensures [C09,C01] instalments-sum-to-the-proceeds: result == nil && len(auction.VestingSchedules) > 0 ==> let(R, old(bal(payEsc(auction.Id), auction.PayingCoinDenom)), sum(j, 0, len(auction.VestingSchedules), instalment(auction.VestingSchedules, R, j)) == R)
+//@ ensures [C09,C19] no-other-instalment-appears: forall(x, uint64, forall(t, Time, VestingQueue[x][t].present && !old(VestingQueue[x][t]).present ==> x == auction.Id && result == nil && exists(j, int, 0 <= j && j < len(auction.VestingSchedules) && auction.VestingSchedules[j].ReleaseTime == t)))
+//@ ensures [C19] existing-instalments-untouched: forall(x, uint64, forall(t, Time, old(VestingQueue[x][t]).present ==> VestingQueue[x][t] == old(VestingQueue[x][t])))
+//@ ensures [C19,C08] only-the-status-of-this-auction-changes: sameExcept(auction, old(auction), Status) && forall(x, uint64, x != auction.Id ==> Auction[x] == old(Auction[x]))
+//@ ensures [C08,C16] record-written-with-the-new-status: result == nil ==> Auction[auction.Id].present && Auction[auction.Id].Status == auction.Status && Auction[auction.Id].Kind == auction.Kind && sameExcept(Auction[auction.Id], auction, Kind)
+//@ ensures [C02,C19] no-other-balance-moves: let(pd, auction.PayingCoinDenom, forall(ad, Addr, forall(d, string, d != pd || (ad != payEsc(auction.Id) && ad != vestEsc(auction.Id) && ad != addrOf(auction.Auctioneer)) ==> bal(ad, d) == old(bal(ad, d)))))
+//@ ensures [C07] fails-only-if-the-bank-refuses: ExternOK ==> result == nil
+//@ loop 0 let R = reserveCoin.Amount
+//@ loop 0 invariant 0 <= idx && idx <= len(auction.VestingSchedules) && vsLen == len(auction.VestingSchedules) && R >= 0 && remaining.Denom == payingCoinDenom && payingCoinDenom == auction.PayingCoinDenom && reserveCoin.Amount == R
+//@ loop 0 invariant idx < vsLen ==> remaining.Amount == R - sum(t, 0, idx, share(R, auction.VestingSchedules[t].Weight))
+//@ loop 0 invariant idx == vsLen ==> remaining.Amount == 0
+//@ loop 0 invariant S * sum(t, 0, idx, share(R, auction.VestingSchedules[t].Weight)) <= R * sum(t, 0, idx, auction.VestingSchedules[t].Weight)
+//@ loop 0 invariant idx < vsLen ==> sum(t, 0, idx + 1, auction.VestingSchedules[t].Weight) <= S
+//@ loop 0 invariant forall(j, int, 0 <= j && j < idx ==> let(q, VestingQueue[auction.Id][auction.VestingSchedules[j].ReleaseTime], q.present && q.PayingCoin.Amount == instalment(auction.VestingSchedules, R, j) && q.PayingCoin.Amount >= 0 && q.PayingCoin.Denom == auction.PayingCoinDenom && !q.Released && q.ReleaseTime == auction.VestingSchedules[j].ReleaseTime && q.AuctionId == auction.Id && q.Auctioneer == auction.Auctioneer))
+//@ loop 0 invariant forall(x, uint64, forall(t, Time, (VestingQueue[x][t].present && !old(VestingQueue[x][t]).present ==> x == auction.Id && exists(j, int, 0 <= j && j < idx && auction.VestingSchedules[j].ReleaseTime == t)) && (old(VestingQueue[x][t]).present ==> VestingQueue[x][t] == old(VestingQueue[x][t]))))
+//@ loop 0 invariant Auction == old(Auction) && sameExcept(auction, old(auction), Status) && auction.Status == old(auction.Status) && Bal == Bal_at_loop && ExternOK
+//@ loop 0 let Bal_at_loop = Bal
